@@ -358,6 +358,14 @@ func evaluate(spec caseSpec, db *Database, verbose bool) outcome {
 			if i := strings.Index(ee.Msg, "'"); ee.Code == "UNKNOWN_IDENTIFIER" && i >= 0 {
 				out.class += ":" + strings.Trim(ee.Msg[i:], "'")
 			}
+			if ee.Code == "SIZES_OF_ARRAYS_DONT_MATCH" {
+				for _, st := range spec.Query.Stages {
+					if st.Kind == "regexp" && strings.Contains(st.Val, "(?:") {
+						// explanation: the planner lists a label name for the non-capturing group, RE2 has no such group
+						out.class = "regexp_non_capturing_group_counted_as_capture"
+					}
+				}
+			}
 			out.what = fmt.Sprintf("ClickHouse rejects the generated SQL for %s: %v", spec.Text, err)
 			out.outcome = out.class
 			return out
@@ -493,6 +501,17 @@ func main() {
 	}
 	truth := truthDB(start, end)
 	dbs[truth.Name] = truth
+	maxGroups := 3
+	if r.Thorough() {
+		maxGroups = 4
+	}
+	if r.Replay != "" {
+		maxGroups = 4 // a replay may name any regexp-structure database
+	}
+	reSpace := regexpStructures(maxGroups, start)
+	for _, d := range reSpace.dbs {
+		dbs[d.Name] = d
+	}
 
 	if r.Replay != "" {
 		b, err := os.ReadFile(r.Replay)
@@ -637,6 +656,19 @@ func main() {
 				caseSpec{Query: qu, Text: text, DB: truth.Name, Params: Params{Start: start, End: end}, Cluster: true})
 		}
 	}
+	// regexp group structures, each on the database of its shape
+	for _, rq := range reSpace.queries {
+		text := rq.q.String()
+		if seen[text] {
+			continue
+		}
+		seen[text] = true
+		cases = append(cases, caseSpec{Query: rq.q, Text: text, DB: rq.db, Params: Params{Start: start, End: end}})
+		if cfg.thorough && len(rq.q.Stages) == 1 {
+			cases = append(cases, caseSpec{Query: rq.q, Text: text, DB: rq.db, Params: Params{Start: start, End: end}, Cluster: true})
+		}
+	}
+	r.Extra["regexp_group_structures"] = map[string]int{"max_groups": maxGroups, "shapes": reSpace.shapes, "patterns": reSpace.patterns, "databases": len(reSpace.dbs), "queries": len(reSpace.queries)}
 	nUniversalQueries := len(uq)
 	r.Extra["query_shapes"] = len(shapeSeen)
 	for _, qu := range limitQueries() {
